@@ -83,7 +83,8 @@ func Match(seq Sequence, query Sequence) []Segment {
 		case 'n':
 			b.WriteString(".")
 		default:
-			b.WriteByte(c)
+			// Any other byte is a literal: it must not be read as regexp syntax.
+			b.WriteString(regexp.QuoteMeta(string(c)))
 		}
 	}
 
